@@ -23,136 +23,222 @@ MAXK = 8
 class Obl:
     def __init__(self):
         self.bad = []
+        self.unknown = []      # constructs the interpreter does not model (=> `unresolved`, never an alarm)
 
     def fail(self, msg, node):
         self.bad.append((msg, node))
+
+    def unmodelled(self, what, node):
+        self.unknown.append((what, node))
+
+
+# A range is (lo, hi, incl): lo*q <= value, and value < hi*q (incl False) or value <= hi*q (incl True).
+def R(lo, hi, incl=False):
+    return (lo, hi, incl)
+
+
+def within(x, k):
+    """value < k*q ?"""
+    return x is not TOP and (x[1] < k or (x[1] == k and not x[2]))
+
+
+def show_r(x):
+    if x is TOP:
+        return "unknown"
+    return "[%dq, %dq%s" % (x[0], x[1], "]" if x[2] else ")")
+
+
+def join_r(parts):
+    parts = [p for p in parts if p is not TOP]
+    if not parts:
+        return TOP
+    hi = max(p[1] for p in parts)
+    return (min(p[0] for p in parts), hi, any(p[2] for p in parts if p[1] == hi))
 
 
 def add(x, y, ob, node, what="+"):
     if x is TOP or y is TOP:
         return TOP
-    hi = x[1] + y[1] - (1 if (x[1] > 0 and y[1] > 0) else 0) if False else x[1] + y[1]
-    # [lx q, hx q) + [ly q, hy q)  is within [ (lx+ly) q, (hx+hy) q )
+    hi = x[1] + y[1]
     if hi > MAXK:
         ob.fail("addition can reach %d*q >= 2^64 for q near 2^61: wrap-around" % hi, node)
         return TOP
-    return (x[0] + y[0], hi)
+    return (x[0] + y[0], hi, x[2] and y[2])
 
 
 def sub(x, y, ob, node):
     if x is TOP or y is TOP:
-        ob.fail("subtraction of values with unknown range", node)
         return TOP
-    # x >= lx*q ; y < hy*q  -> needs lx >= hy   (x - y > 0)
     if x[0] < y[1]:
         ob.fail("subtraction may underflow: minuend >= %d*q but subtrahend can reach %d*q" % (x[0], y[1]), node)
         return TOP
-    return (max(0, x[0] - y[1]), x[1] - y[0])
+    return (max(0, x[0] - y[1]), x[1] - y[0], x[2])
 
 
-def cond_sub(x, c, ob, node):
-    """if x >= c*q { x - c*q } else { x }"""
+def cond_sub(x, c, strict):
+    """if x >= c*q (or x > c*q when strict) { x - c*q } else { x }"""
     if x is TOP:
         return TOP
-    lo, hi = x
+    lo, hi, incl = x
     parts = []
-    if hi > c:          # then-branch reachable: x in [max(lo,c), hi)
-        parts.append((max(lo, c) - c, hi - c))
-    if lo < c:          # else-branch reachable: x in [lo, min(hi,c))
-        parts.append((lo, min(hi, c)))
-    return (min(p[0] for p in parts), max(p[1] for p in parts))
+    then_reach = hi > c or (hi == c and incl and not strict)
+    if then_reach:
+        parts.append((max(lo, c) - c, hi - c, incl))
+    if lo < c or (lo == c and strict):
+        if hi > c or (hi == c and incl):
+            parts.append((lo, c, strict))          # else-branch: x < c  (or x <= c when strict)
+        else:
+            parts.append((lo, hi, incl))
+    return join_r(parts)
 
 
 class RangeInterp:
-    """Abstract evaluator for the small arithmetic functions."""
+    """Abstract evaluator for the small arithmetic functions of the transform core."""
 
-    def __init__(self, facts):
+    def __init__(self, facts, consts=None):
         self.facts = facts
+        self.consts = consts or {}        # lid -> exact multiple of q (helper locals of an enclosing function)
 
     def const_of(self, e):
-        """exact multiples of q denoted by an expression: self.two_times_modulus -> 2, modulus / self.modulus.value() -> 1"""
+        """exact multiple of q denoted by an expression (self.two_times_modulus -> 2, modulus.value() -> 1, c << 1)"""
         e = strip(e)
         k = e.get("k")
         if k == "Field" and e.get("name") == "two_times_modulus":
             return 2
-        if k == "Path" and e.get("res") == "local" and e.get("name") in ("two_times_modulus",):
-            return 2
-        if k == "Path" and e.get("res") == "local" and e.get("name") in ("modulus",) and self.facts.ty(e) == "u64":
-            return 1
+        if k == "Path" and e.get("res") == "local":
+            if e["lid"] in self.consts:
+                return self.consts[e["lid"]]
+            return None
         if k == "MCall" and e.get("name") == "value" and not e["args"]:
             return 1
+        if k == "Bin" and e.get("op") == "<<":
+            c = self.const_of(e["a"])
+            sh = strip(e["b"])
+            if c is not None and sh.get("k") == "Lit" and str(sh.get("v", "")).split("_")[0].isdigit():
+                return c << int(str(sh["v"]).split("_")[0])
         return None
 
+    # -------------------------------------------------------------- sign-mask idiom
+    def mask_of(self, e, env):
+        """((A.wrapping_sub(B) as i64) >> 63) as u64  ->  ('lt', A, B): all ones iff A < B (magnitudes < 2^63)."""
+        e = strip(e)
+        if e.get("k") == "Cast":
+            return self.mask_of(e["e"], env)
+        if e.get("k") == "Bin" and e.get("op") == ">>" and strip(e["b"]).get("v", "").split("_")[0] == "63":
+            inner = strip(e["a"])
+            while inner.get("k") == "Cast":
+                inner = strip(inner["e"])
+            if inner.get("k") == "MCall" and inner.get("name") == "wrapping_sub" and inner["args"]:
+                return ("lt", inner["recv"], inner["args"][0])
+        if e.get("k") == "Path" and e.get("res") == "local" and isinstance(env.get(("mask", e["lid"])), tuple):
+            return env[("mask", e["lid"])]
+        if e.get("k") == "Un" and e.get("op") == "!":
+            m = self.mask_of(e["e"], env)
+            if m:
+                return ("ge", m[1], m[2]) if m[0] == "lt" else ("lt", m[1], m[2])
+        return None
+
+    def masked_const(self, e, env):
+        """C & mask  ->  (C multiple, condition)"""
+        e = strip(e)
+        if e.get("k") == "Bin" and e.get("op") == "&":
+            for c_e, m_e in ((e["a"], e["b"]), (e["b"], e["a"])):
+                c = self.const_of(c_e)
+                m = self.mask_of(m_e, env)
+                if c is not None and m is not None:
+                    return c, m
+        return None
+
+    # -------------------------------------------------------------- expressions
     def ev(self, e, env, ob, arith=None):
         e = strip(e)
         k = e.get("k")
         c = self.const_of(e)
         if c is not None:
-            return (c, c + 0) if False else ("const", c)
+            return (c, c, True)
         if k == "Path" and e.get("res") == "local":
             return env.get(e["lid"], TOP)
         if k == "Block":
-            env2 = env
+            env2 = dict(env)
             for s in e.get("stmts", []):
                 if s.get("k") == "Let" and s["pat"].get("k") == "PBind" and "init" in s:
-                    env2 = dict(env2)
-                    env2[s["pat"]["lid"]] = self.val(self.ev(s["init"], env2, ob, arith))
+                    m = self.mask_of(s["init"], env2)
+                    if m is not None:
+                        env2[("mask", s["pat"]["lid"])] = m
+                    else:
+                        env2[s["pat"]["lid"]] = self.ev(s["init"], env2, ob, arith)
                 elif s.get("k") in ("Semi", "Expr"):
                     self.exec(s["e"], env2, ob, arith)
             return self.ev(e["expr"], env2, ob, arith) if e.get("expr") else TOP
         if k == "Bin":
             op = e["op"]
+            if op == "-":
+                mc = self.masked_const(e["b"], env)
+                if mc is not None:
+                    # X - (C & mask): conditional subtraction; the mask condition must compare X itself with C
+                    C, (rel, A, B) = mc
+                    x = self.ev(e["a"], env, ob, arith)
+                    xa, xb = local_of(A), local_of(B)
+                    xl = local_of(e["a"])
+                    ca, cb = self.const_of(A), self.const_of(B)
+                    if xl and xb and xb[0] == xl[0] and ca == C:
+                        # mask set iff C < X  (rel lt)  or C >= X (rel ge)
+                        if rel == "lt":
+                            return self._checked_cond_sub(x, C, True, ob, e)
+                    if xl and xa and xa[0] == xl[0] and cb == C:
+                        # mask set iff X < C (lt) / X >= C (ge)
+                        if rel == "ge":
+                            return self._checked_cond_sub(x, C, False, ob, e)
+                    ob.unmodelled("masked subtraction whose mask does not test the subtracted value against the constant", e)
+                    return TOP
             if op in ("+", "-"):
                 a = self.ev(e["a"], env, ob, arith)
                 b = self.ev(e["b"], env, ob, arith)
-                if op == "+":
-                    return add(self.val(a), self.val(b), ob, e)
-                return sub(self.val(a), self.val(b), ob, e)
-            if op == "<<":
-                a = self.ev(e["a"], env, ob, arith)
-                sh = strip(e["b"])
-                if isinstance(a, tuple) and a[0] == "const" and sh.get("k") == "Lit" and sh.get("v") == "1":
-                    return ("const", a[1] * 2)
+                return add(a, b, ob, e) if op == "+" else sub(a, b, ob, e)
+            ob.unmodelled("operator %s" % op, e)
             return TOP
         if k == "If":
             c = strip(e["c"])
-            if c.get("k") == "Bin" and c.get("op") == ">=":
-                x = self.val(self.ev(c["a"], env, ob, arith))
-                cc = self.ev(c["b"], env, ob, arith)
-                if isinstance(cc, tuple) and cc[0] == "const":
-                    if x is TOP:
-                        return TOP
-                    C = cc[1]
+            if c.get("k") == "Bin" and c.get("op") in (">=", ">"):
+                x = self.ev(c["a"], env, ob, arith)
+                C = self.const_of(c["b"])
+                if C is not None and x is not TOP:
+                    strict = c["op"] == ">"
+                    lo, hi, incl = x
                     parts = []
-                    if x[1] > C:       # then-branch reachable with x in [max(lo,C), hi)
-                        t = self.val(self.ev(e["th"], self._refined(env, c["a"], (max(x[0], C), x[1])), ob, arith))
+                    if hi > C or (hi == C and incl and not strict):
+                        t = self.ev(e["th"], self._refined(env, c["a"], (max(lo, C), hi, incl)), ob, arith)
                         if t is TOP:
                             return TOP
                         parts.append(t)
-                    if x[0] < C:       # else-branch reachable with x in [lo, min(hi,C))
-                        if e.get("el"):
-                            el = self.val(self.ev(e["el"], self._refined(env, c["a"], (x[0], min(x[1], C))), ob, arith))
-                        else:
-                            el = (x[0], min(x[1], C))
+                    if lo < C or (lo == C and strict):
+                        rng = (lo, C, strict) if (hi > C or (hi == C and incl)) else (lo, hi, incl)
+                        el = self.ev(e["el"], self._refined(env, c["a"], rng), ob, arith) if e.get("el") else rng
                         if el is TOP:
                             return TOP
                         parts.append(el)
-                    if not parts:
-                        return TOP
-                    return (min(p_[0] for p_ in parts), max(p_[1] for p_ in parts))
+                    return join_r(parts)
+            ob.unmodelled("conditional of an unmodelled form", e)
             return TOP
         if k in ("Call", "MCall"):
             f = callee(e)
             name = f["name"] if f else e.get("name")
-            if name in ("multiply_u64operand_mod_lazy",):
-                return (0, 2)
+            if name == "multiply_u64operand_mod_lazy":
+                return (0, 2, False)
             if name in ("multiply_u64operand_mod", "barrett_reduce_u64", "reduce"):
-                return (0, 1)
+                return (0, 1, False)
             if arith is not None and name in arith and e.get("k") == "MCall":
-                args = [self.val(self.ev(a, env, ob, arith)) for a in e["args"]]
+                args = [self.ev(a, env, ob, arith) for a in e["args"]]
                 return arith[name](args, ob, e)
+            ob.unmodelled("call to %s" % name, e)
             return TOP
+        ob.unmodelled("expression kind %s" % k, e)
         return TOP
+
+    def _checked_cond_sub(self, x, C, strict, ob, node):
+        if x is TOP:
+            return TOP
+        return cond_sub(x, C, strict)
 
     def _refined(self, env, var_expr, rng):
         lo = local_of(var_expr)
@@ -162,204 +248,195 @@ class RangeInterp:
         env[lo[0]] = rng
         return env
 
-    def val(self, v):
-        if isinstance(v, tuple) and v and v[0] == "const":
-            return (v[1], v[1] + 0) if False else (v[1], v[1])   # exact multiple: [c*q, c*q]
-        return v
-
     def exec(self, e, env, ob, arith):
-        """statement-level: assignments through references `*x = ...`, `*x -= C` inside ifs."""
+        """statement level: `*x = ...`, `*x -= C` under `if *x >= C`, lets, blocks."""
         e = strip(e)
         k = e.get("k")
         if k == "Assign":
             lo = local_of(e["lhs"])
             if lo:
-                env[lo[0]] = self.val(self.ev(e["rhs"], env, ob, arith))
+                env[lo[0]] = self.ev(e["rhs"], env, ob, arith)
         elif k == "AssignOp" and e.get("op", "").startswith("-"):
             lo = local_of(e["lhs"])
             if lo:
-                env[lo[0]] = sub(env.get(lo[0], TOP), self.val(self.ev(e["rhs"], env, ob, arith)), ob, e)
+                env[lo[0]] = sub(env.get(lo[0], TOP), self.ev(e["rhs"], env, ob, arith), ob, e)
         elif k == "If":
             c = strip(e["c"])
-            if c.get("k") == "Bin" and c.get("op") == ">=" and not e.get("el"):
-                lo = local_of(c["a"])
-                cc = self.ev(c["b"], env, ob, arith)
-                if lo and isinstance(cc, tuple) and cc[0] == "const":
-                    x = env.get(lo[0], TOP)
-                    if x is TOP:
-                        return
-                    parts = []
-                    if x[1] > cc[1]:
-                        env_t = dict(env)
-                        env_t[lo[0]] = (max(x[0], cc[1]), x[1])
-                        self.exec(e["th"], env_t, ob, arith)
-                        parts.append(env_t[lo[0]])
-                    if x[0] < cc[1]:
-                        parts.append((x[0], min(x[1], cc[1])))
-                    parts = [p for p in parts if p is not TOP]
-                    env[lo[0]] = (min(p[0] for p in parts), max(p[1] for p in parts)) if parts else TOP
+            lo = local_of(c["a"]) if c.get("k") == "Bin" else None
+            C = self.const_of(c["b"]) if c.get("k") == "Bin" else None
+            if c.get("k") == "Bin" and c.get("op") in (">=", ">") and not e.get("el") and lo and C is not None:
+                x = env.get(lo[0], TOP)
+                if x is TOP:
+                    return
+                strict = c["op"] == ">"
+                l, h, incl = x
+                parts = []
+                if h > C or (h == C and incl and not strict):
+                    env_t = dict(env)
+                    env_t[lo[0]] = (max(l, C), h, incl)
+                    self.exec(e["th"], env_t, ob, arith)
+                    parts.append(env_t[lo[0]])
+                if l < C or (l == C and strict):
+                    parts.append((l, C, strict) if (h > C or (h == C and incl)) else (l, h, incl))
+                env[lo[0]] = join_r(parts)
+            else:
+                ob.unmodelled("conditional statement of an unmodelled form", e)
         elif k == "Block":
             for s in e.get("stmts", []):
                 if s.get("k") == "Let" and s["pat"].get("k") == "PBind" and "init" in s:
-                    env[s["pat"]["lid"]] = self.val(self.ev(s["init"], env, ob, arith))
+                    m = self.mask_of(s["init"], env)
+                    if m is not None:
+                        env[("mask", s["pat"]["lid"])] = m
+                    else:
+                        env[s["pat"]["lid"]] = self.ev(s["init"], env, ob, arith)
                 elif s.get("k") in ("Semi", "Expr"):
                     self.exec(s["e"], env, ob, arith)
             if e.get("expr"):
                 self.exec(e["expr"], env, ob, arith)
 
 
-def arith_summaries(facts, interp, rep, R):
+def arith_summaries(facts, interp, rep, Rn):
     """name -> function(args, ob, node) for ModArithLazy's Arithmetic impl, derived from the impl bodies."""
     out = {}
     for nm in ("add", "sub", "mul_root", "mul_scalar", "guard"):
         cands = [p for p in facts.items if p.endswith("::" + nm) and "ModArithLazy" in facts.items[p].get("impl_self", "")
                  and "Arithmetic" in facts.items[p].get("impl_trait", "")]
-        if not rep.anchor(R, "ModArithLazy::" + nm, bool(cands)):
+        if not rep.anchor(Rn, "ModArithLazy::" + nm, bool(cands)):
             continue
         p = cands[0]
         it = facts.items[p]
         body = facts.hir[p]
         plids = [pp["pat"]["lid"] for pp in it["params"] if pp["pat"].get("k") == "PBind"]
 
-        def fn(args, ob, node, body=body, plids=plids, nm=nm, p=p):
+        def fn(args, ob, node, body=body, plids=plids, nm=nm):
             env = {}
             for lid, a in zip(plids[1:], args):
                 env[lid] = a
             sub_ob = Obl()
-            r = interp.val(interp.ev(body, env, sub_ob))
+            r = interp.ev(body, env, sub_ob)
             for msg, n2 in sub_ob.bad:
                 ob.fail("in ModArithLazy::%s (line %s): %s" % (nm, n2.get("l"), msg), node)
+            for msg, n2 in sub_ob.unknown:
+                ob.unmodelled("ModArithLazy::%s line %s: %s" % (nm, n2.get("l"), msg), node)
             return r
         out[nm] = fn
     return out
 
 
-def butterfly(facts, interp, arith, fpath, start, rep, R):
-    """Fixpoint of the butterfly body of a DWTHandler transform starting from element range `start`."""
+def butterfly(facts, interp, arith, fpath, start, rep, Rn):
+    """Least inductive bound of the butterfly body of a DWTHandler transform from element range `start`.
+    -> (range or None, trace, failed obligations, unmodelled constructs, loop node)"""
     body = facts.hir[fpath]
-    # the innermost For whose pattern binds two element references (x, y)
     loops = [x for x in walk(body) if x.get("k") == "For" and x["pat"].get("k") == "PTuple" and len(x["pat"]["ps"]) == 2]
-    if not rep.anchor(R, fpath + "/butterfly", bool(loops)):
-        return None, None
+    if not rep.anchor(Rn, fpath + "/butterfly", bool(loops)):
+        return None, [], [], [], None
     L = loops[0]
     xl, yl = L["pat"]["ps"][0].get("lid"), L["pat"]["ps"][1].get("lid")
     cur = start
     trace = []
-    for it in range(12):
+    for _ in range(12):
         ob = Obl()
         env = {xl: cur, yl: cur}
         interp.exec(L["body"], env, ob, arith)
         nx, ny = env.get(xl, TOP), env.get(yl, TOP)
-        trace.append((cur, nx, ny, [m for m, _ in ob.bad]))
+        trace.append((show_r(cur), show_r(nx), show_r(ny)))
+        if ob.unknown:
+            return None, trace, [], ob.unknown, L
         if ob.bad or nx is TOP or ny is TOP:
-            return None, (trace, ob.bad, L)
-        new = (0, max(cur[1], nx[1], ny[1]))
+            return None, trace, ob.bad or [("range lost", L)], [], L
+        new = join_r([cur, nx, ny])
+        new = (0, new[1], new[2])
         if new == cur:
-            return cur, (trace, [], L)
+            return cur, trace, [], [], L
         cur = new
         if cur[1] > MAXK:
-            return None, (trace, [("no inductive bound below 8q", L)], L)
-    return None, (trace, [("no fixpoint", L)], L)
-
-
-def scalar_pass(facts, interp, arith, fpath, rng):
-    """range after the optional `mul_scalar` pass of a transform"""
-    body = facts.hir[fpath]
-    for x in walk(body):
-        if x.get("k") == "MCall" and x.get("name") == "mul_scalar":
-            return (0, 2)
-    return rng
+            return None, trace, [("no inductive bound below 8q", L)], [], L
+    return None, trace, [("no fixpoint", L)], [], L
 
 
 def run(facts, rep):
-    R = "R-RANGE"
-    rep.rule(R, "k*q interval interpretation of the NTT core: butterfly invariants inductive below 8q, no overflow / "
+    Rn = "R-RANGE"
+    rep.rule(Rn, "k*q interval interpretation of the NTT core: butterfly invariants inductive below 8q, no overflow / "
              "underflow, non-lazy forms end in [0,q), lazy forms inside their documented range")
     interp = RangeInterp(facts)
-    arith = arith_summaries(facts, interp, rep, R)
+    arith = arith_summaries(facts, interp, rep, Rn)
     if len(arith) < 5:
         return
     fwd = "util::dwthandler::DWTHandler::<ArithmeticType>::transform_to_rev"
     inv = "util::dwthandler::DWTHandler::<ArithmeticType>::transform_from_rev"
     results = {}
-    for name, fpath, starts, doc in (("forward", fwd, [(0, 1), (0, 4)], 4), ("inverse", inv, [(0, 1), (0, 2)], 2)):
-        if not rep.anchor(R, fpath, fpath in facts.hir):
+    for name, fpath, starts, doc in (("forward", fwd, [R(0, 1), R(0, 4)], 4), ("inverse", inv, [R(0, 1), R(0, 2)], 2)):
+        if not rep.anchor(Rn, fpath, fpath in facts.hir):
             continue
         rep.fn(fpath)
         worst = None
         for st in starts:
-            fix, info = butterfly(facts, interp, arith, fpath, st, rep, R)
+            fix, trace, bad, unknown, L = butterfly(facts, interp, arith, fpath, st, rep, Rn)
             rep.stats["paths"] += 1
-            key = "%s/from[0,%dq)" % (name, st[1])
-            if fix is None:
-                trace, bad, L = info if info else ([], [("?", None)], None)
-                msg = "; ".join(m for m, _ in bad) or "no bound"
-                rep.violation(R, key, "the %s butterfly has no overflow/underflow-free inductive invariant from inputs in "
-                              "[0,%dq): %s" % (name, st[1], msg), facts.loc(fpath, L))
+            key = "%s/from%s" % (name, show_r(st))
+            if unknown:
+                rep.unresolved(Rn, key, "the %s butterfly uses a construct the interval interpreter does not model: %s" %
+                               (name, unknown[0][0]), facts.loc(fpath, L))
+            elif fix is None:
+                rep.violation(Rn, key, "the %s butterfly has no overflow/underflow-free inductive invariant from inputs in %s: %s"
+                              % (name, show_r(st), "; ".join(m for m, _ in bad) or "no bound"), facts.loc(fpath, L))
             else:
-                rep.ok(R, key, "%s butterfly: inputs in [0,%dq) => every intermediate stays below %dq <= 8q; invariant "
-                       "[0,%dq) is inductive" % (name, st[1], fix[1], fix[1]), facts.loc(fpath),
-                       sample={"transform": name, "start": st, "invariant_multiple_of_q": fix[1], "iterations": len(info[0])})
-                worst = max(worst or 0, fix[1])
+                rep.ok(Rn, key, "%s butterfly: inputs in %s => invariant %s is inductive, every intermediate below 8q" %
+                       (name, show_r(st), show_r(fix)), facts.loc(fpath),
+                       sample={"transform": name, "start": show_r(st), "invariant": show_r(fix), "trace": trace})
+                worst = fix if worst is None else join_r([worst, fix])
         if worst is not None:
-            out = scalar_pass(facts, interp, arith, fpath, (0, worst))
-            results[name] = worst if name == "forward" else out[1]
-            if worst > doc:
-                rep.violation(R, name + "/documented", "the %s butterfly needs values up to %dq but the documented lazy range is "
-                              "%dq" % (name, worst, doc), facts.loc(fpath))
-    # epilogues of the NTTTables wrappers
+            has_scalar = any(x.get("k") == "MCall" and x.get("name") == "mul_scalar" for x in walk(facts.hir[fpath]))
+            results[name] = worst if not (has_scalar and name == "inverse") else R(0, 2)
+            if name == "inverse":
+                results["inverse_core"] = worst
+            if not within(worst, doc):
+                rep.violation(Rn, name + "/documented", "the %s butterfly's values can reach %s but the documented lazy range is "
+                              "[0,%dq): the lazy form returns values outside its contract" % (name, show_r(worst), doc),
+                              facts.loc(fpath))
+            else:
+                rep.ok(Rn, name + "/documented", "%s values stay inside the documented lazy range [0,%dq)" % (name, doc),
+                       facts.loc(fpath), nontrivial=False)
     for nm, base, lazy_out in (("ntt_negacyclic_harvey", "forward", 4), ("inverse_ntt_negacyclic_harvey", "inverse", 2)):
         p = "util::ntt::NTTTables::" + nm
         pl = p + "_lazy"
-        if not (rep.anchor(R, p, p in facts.hir) and rep.anchor(R, pl, pl in facts.hir)) or base not in results:
+        if not (rep.anchor(Rn, p, p in facts.hir) and rep.anchor(Rn, pl, pl in facts.hir)) or base not in results:
             continue
         rep.fn(p)
         rep.fn(pl)
-        # lazy form: reaches the handler of its direction, with a scalar for the inverse
         want = "transform_to_rev" if base == "forward" else "transform_from_rev"
         called = [(callee(x) or {}).get("name") for x in walk(facts.hir[pl]) if x.get("k") == "MCall"]
         if want not in called:
-            rep.violation(R, nm + "_lazy/handler", "%s no longer reaches %s" % (pl, want), facts.loc(pl))
+            rep.violation(Rn, nm + "_lazy/handler", "%s no longer reaches %s" % (pl, want), facts.loc(pl))
             continue
-        rng = (0, results[base])
-        if rng[1] <= lazy_out:
-            rep.ok(R, nm + "_lazy/range", "lazy output within [0,%dq)" % lazy_out, facts.loc(pl))
-        else:
-            rep.violation(R, nm + "_lazy/range", "lazy output can reach %dq, documented %dq" % (rng[1], lazy_out), facts.loc(pl))
-        # non-lazy epilogue: closure `|x| { if *x >= C {*x -= C} ... }`
+        rng = results[base]
         body = facts.hir[p]
         cl = [x for x in walk(body) if x.get("k") == "Closure"]
         if not cl:
-            rep.violation(R, nm + "/epilogue", "%s has no reduction epilogue after the lazy transform" % p, facts.loc(p))
+            rep.violation(Rn, nm + "/epilogue", "%s has no reduction epilogue after the lazy transform" % p, facts.loc(p))
             continue
         c = cl[-1]
         xl = c["params"][0].get("lid") if c["params"] else None
-        # constants two_times_modulus / modulus are locals of the enclosing function
-        env = {xl: rng}
-        ob = Obl()
-        # bind the helper locals (modulus = self.modulus.value(); two_times_modulus = modulus << 1)
+        consts = {}
+        i0 = RangeInterp(facts)
         for s in body.get("stmts", []):
             if s.get("k") == "Let" and s["pat"].get("k") == "PBind" and "init" in s:
-                v = interp.ev(s["init"], env, ob)
-                if isinstance(v, tuple) and v and v[0] == "const":
-                    env[s["pat"]["lid"]] = v
-
-        class _I(RangeInterp):
-            def const_of(self2, e):
-                e2 = strip(e)
-                if e2.get("k") == "Path" and e2.get("res") == "local" and isinstance(env.get(e2["lid"]), tuple) \
-                        and env[e2["lid"]][0] == "const":
-                    return env[e2["lid"]][1]
-                return RangeInterp.const_of(self2, e)
-        i2 = _I(facts)
+                i0.consts = consts
+                v = i0.const_of(s["init"])
+                if v is not None:
+                    consts[s["pat"]["lid"]] = v
+        i2 = RangeInterp(facts, consts)
+        ob = Obl()
         env2 = {xl: rng}
         i2.exec(c["body"], env2, ob, None)
         fin = env2.get(xl, TOP)
-        if ob.bad:
-            rep.violation(R, nm + "/epilogue", "; ".join(m for m, _ in ob.bad), facts.loc(p, ob.bad[0][1]))
-        elif fin is not TOP and fin[1] <= 1:
-            rep.ok(R, nm + "/epilogue", "from [0,%dq) the epilogue lands in [0,q)" % rng[1], facts.loc(p),
-                   sample={"function": nm, "before": rng, "after": fin})
+        if ob.unknown:
+            rep.unresolved(Rn, nm + "/epilogue", "epilogue uses an unmodelled construct: %s" % ob.unknown[0][0], facts.loc(p))
+        elif ob.bad:
+            rep.violation(Rn, nm + "/epilogue", "; ".join(m for m, _ in ob.bad), facts.loc(p, ob.bad[0][1]))
+        elif within(fin, 1):
+            rep.ok(Rn, nm + "/epilogue", "from %s the epilogue lands in [0,q)" % show_r(rng), facts.loc(p),
+                   sample={"function": nm, "before": show_r(rng), "after": show_r(fin)})
         else:
-            rep.violation(R, nm + "/epilogue", "the non-lazy %s can return values up to %s*q: results are not canonical "
-                          "residues" % (nm, fin[1] if fin else "?"), facts.loc(p))
+            rep.violation(Rn, nm + "/epilogue", "the non-lazy %s can return values in %s: results are not canonical residues" %
+                          (nm, show_r(fin)), facts.loc(p))
